@@ -64,7 +64,8 @@ def rx_of(pattern, flags=0):
 
 def zinc(section, name):
     t = load('zinc_spec.json')
-    tokens = t['tokens']
+    tokens = dict(t['tokens'])
+    tokens.update({k: v for k, v in t['structure'].items() if isinstance(v, str)})
     entry = t[section][name]
     text = entry['re'] if isinstance(entry, dict) else entry
     return rx_of(expand(tokens, text))
